@@ -42,6 +42,13 @@ type site struct {
 	props string // which properties' ties use it (documentation)
 }
 
+// operands that are compared for (in)equality only and are not integers (strings, byte slices): `a != b`
+// becomes the Boolean parameter ne_a_b / `a == b` eq_a_b. Per site, by flattened name.
+var opaque = map[string]*regexp.Regexp{
+	"validateBasic": regexp.MustCompile(`ChainID|chainID`),
+}
+var curOpaque *regexp.Regexp
+
 var sites = []site{
 	// ---- vote accounting thresholds (C15, C01, C02, C13, C14)
 	{"voteSet_quorum", "gemmill/types/vote_set.go", "addVerifiedVote", "assign", `^quorum$`, "", "C15 C01"},
@@ -54,6 +61,10 @@ var sites = []site{
 	{"admin_from", "gemmill/plugin/admin_op.go", "ProcessAdminOP", "if", `app\.From\(\)`, "", "C14"},
 	{"admin_nonce", "gemmill/plugin/admin_op.go", "ProcessAdminOP", "if", `vAttr\.Nonce`, "", "C14"},
 	{"admin_samePower", "gemmill/plugin/admin_op.go", "ProcessAdminOP", "if", `val\.VotingPower\W+vAttr\.Power`, "", "C14"},
+	// ---- block validation (C02, C13), proposer comparison (C16)
+	{"validateBasic", "gemmill/types/block.go", "ValidateBasic", "tree", "", "", "C02 C13"},
+	{"validateCommit", "gemmill/types/block.go", "ValidateCommit", "tree", "", "", "C02 C13"},
+	{"compareAccum", "gemmill/types/validator.go", "CompareAccum", "tree", "", "", "C16"},
 	// ---- transport framing (C20)
 	{"packet_isLast", "gemmill/p2p/connection.go", "nextMsgPacket", "if", `len\(ch\.sending\)\W+maxMsgPacketPayloadSize`, "", "C20"},
 	{"packet_take", "gemmill/p2p/connection.go", "nextMsgPacket", "slicehi", `^ch\.sending\[:`, "", "C20"},
@@ -301,6 +312,15 @@ func (v *env) boolExpr(e ast.Expr) string {
 					return nn
 				}
 				return "(!" + nn + ")"
+			}
+			if fa, ok1 := flat(x.X); ok1 && curOpaque != nil && curOpaque.MatchString(fa) {
+				if fb, ok2 := flat(x.Y); ok2 {
+					nn := v.use("eq_"+fa+"_"+fb, "Bool")
+					if x.Op == token.EQL {
+						return nn
+					}
+					return "(!" + nn + ")"
+				}
 			}
 			a, b := v.intExpr(x.X), v.intExpr(x.Y)
 			if x.Op == token.EQL {
@@ -581,6 +601,7 @@ func main() {
 		}
 		v := &env{vars: map[string]string{}}
 		subst = map[string]string{}
+		curOpaque = opaque[st.name]
 		var body, typ, prefix, orig string
 		switch st.kind {
 		case "tree":
